@@ -526,7 +526,7 @@ def parse_verus(assembled, crate, cmd, rc, out, err, wall, path):
                              'possible division by zero', 'decreases not satisfied', 'index in bounds',
                              'recommendation not met', 'unreachable', 'loop invariant', 'rlimit',
                              'Resource limit', 'possible bit shift', 'cannot show', 'failed', 'not satisfied',
-                             'could not prove', 'might fail', 'while loop: not all errors')
+                             'could not prove', 'might fail', 'while loop: not all errors', 'unable to prove')
         if any(v in msg for v in verification_msgs) and not res['vir_error']:
             res['errors'].append(entry)
         else:
